@@ -222,6 +222,8 @@ def run(tier, seed, replay):
         rep.assumptions += ["declaration extractors read what the generator wrote (attributes, link names, FFI declarations), not a compiled module",
                             "`--async=all` over sync-typed functions: the encoder's `async option requires an async function type` complaint is not counted",
                             "generator errors/panics are C16's business and counted as inconclusive here"]
+        if replay:
+            compz.replay_floor(rep, FLOORS, tier)
     finally:
         vcommon.rm_scratch(work)
     return rep
